@@ -28,6 +28,7 @@ RFloor(a)   == CHOOSE r : TRUE
 RRound(a)   == CHOOSE r : TRUE
 RPow(a, n)  == CHOOSE r : TRUE
 RRoundDec(a, d) == CHOOSE r : TRUE
+RExpNeg(a, d) == CHOOSE r : TRUE
 RToInt(a)   == CHOOSE r : TRUE
 RFromInt(a) == CHOOSE r : TRUE
 RIsNum(a)   == CHOOSE r \in BOOLEAN : TRUE
